@@ -260,10 +260,55 @@ def r5_insertion(ctx):
     yield Ob('x12context:X12LoopDataNode.add_node refuses a node of another loop', ok, ctx.floc(fn), '' if ok else 'membership check changed')
 
 
+def r6_start_node_used(ctx):
+    """get / set / exists / count / select / first / delete agree on what a relative path ("../X") addresses: each of
+    them resolves the leading ".." steps with _get_start_node, which returns the node to start from and the rest of the
+    path - and must then search the rest FROM THAT NODE.  A search of the shortened path from `self` addresses a
+    different node (or none)."""
+    m = ctx.mod('x12context')
+    km = KeyMaker()
+    n = 0
+    for q, f in A.all_functions(m.tree):
+        for s_ in ast.walk(f):
+            if not (isinstance(s_, ast.Assign) and isinstance(s_.value, ast.Call) and A.call_target(s_.value) == ('self', '_get_start_node')
+                    and isinstance(s_.targets[0], ast.Tuple) and len(s_.targets[0].elts) == 2):
+                continue
+            start, rest = [path_of(x) for x in s_.targets[0].elts]
+            n += 1
+            # names derived from the rest path
+            derived = {rest}
+            changed = True
+            while changed:
+                changed = False
+                for a in ast.walk(f):
+                    if isinstance(a, ast.Assign) and len(a.targets) == 1 and isinstance(a.targets[0], ast.Name) \
+                            and a.targets[0].id not in derived and any(isinstance(x, ast.Name) and x.id in derived for x in ast.walk(a.value)):
+                        derived.add(a.targets[0].id)
+                        changed = True
+            bad = []
+            used = any(isinstance(x, ast.Name) and x.id == start and isinstance(x.ctx, ast.Load) for x in ast.walk(f))
+            for c in A.calls_in(f):
+                if c is s_.value or not isinstance(c.func, ast.Attribute):
+                    continue
+                uses_rest = any(isinstance(x, ast.Name) and x.id in derived for a_ in list(c.args) + [k.value for k in c.keywords] for x in ast.walk(a_))
+                recv = path_of(c.func.value)
+                if uses_rest and recv == 'self' and c.func.attr != '_get_start_node':
+                    bad.append(c)
+                if uses_rest and recv == start:
+                    used = True
+            ok = not bad and used
+            yield Ob(km('x12context:%s searches the rest of the path from the resolved start node' % q), ok, ctx.loc(m, bad[0] if bad else s_),
+                     '' if ok else ('`%s` searches the shortened path from self, not from `%s`: "../X" then addresses a child of this node instead '
+                                    'of a child of its parent' % (norm(bad[0]), start) if bad else 'the resolved start node `%s` is never searched' % start))
+    if n < 6:
+        raise AnalysisError('x12context: only %d uses of _get_start_node found' % n)
+
+
 RULES = [
     Rule('C10.R1', 'copies own their mutable state; copied children have the copy as parent; tombstones not copied', r1_copy_ownership, floor=3),
     Rule('C10.R2', 'every children.append/insert is paired with parent = owner', r2_parent_child_pairing, floor=6),
     Rule('C10.R3', 'iterations over children skip tombstones; one tombstone marker', r3_tombstones, floor=10),
     Rule('C10.R4', 'Segment.set pads before it stores (shared with C17.R4)', r4_set_pads, floor=6),
     Rule('C10.R5', 'insertion index by map position after a tombstone sweep; add_* insert there', r5_insertion, floor=6),
+    Rule('C10.R6', 'every path operation searches from the start node that _get_start_node resolved', r6_start_node_used, floor=5),
 ]
